@@ -28,10 +28,16 @@ package c07
 import (
 	"bufio"
 	"bytes"
+	"context"
+	"crypto/tls"
+	"crypto/x509"
+	"errors"
 	"fmt"
 	"io"
 	"net"
 	"net/http"
+	"net/http/httptest"
+	"os"
 	"runtime"
 	"sort"
 	"strconv"
@@ -42,6 +48,9 @@ import (
 
 	martian "github.com/google/martian/v3"
 	mlog "github.com/google/martian/v3/log"
+	mh2 "github.com/google/martian/v3/h2"
+	"github.com/google/martian/v3/mitm"
+	"golang.org/x/net/http2"
 
 	"verif/harness/internal/core"
 )
@@ -60,7 +69,11 @@ func (P) Rule() string {
 		"(origin parked before answering, or parked half-way through a Content-Length / chunked body while the exchange is in the response " +
 		"modifier or already being relayed); Close() is called and the " +
 		"parked connections are released in a given order; or a race of N clients against Close(). The recorded event trace is " +
-		"validated against the Lean model and judged by the oracle. Distinct by hash of the op; non-trivial when Close() was called " +
+		"validated against the Lean model and judged by the oracle. Round 3: the clients of the parked exchanges may stop reading for " +
+		"st ms during the drain phase (responses of several MiB, far larger than the socket buffers) and then read on or give up (ab=1); " +
+		"connections may hold a blind CONNECT tunnel (open, or its CONNECT parked in the request modifier / the dial / the response modifier), " +
+		"be MITM'd tunnels (m=1: the six points inside the decrypted tunnel, or the client silent after the 200), or be hijacked by a modifier; " +
+		"Close() may be called by up to 4 concurrent callers. Distinct by hash of the op; non-trivial when Close() was called " +
 		"while at least one connection was parked inside an exchange, held before the spawn, or accepted late, or (race) when at least " +
 		"one exchange started"
 }
@@ -68,7 +81,8 @@ func (P) Rule() string {
 func (P) Nontrivial(ops []string, impl []string) bool {
 	for i, op := range ops {
 		if strings.HasPrefix(op, "scn ") {
-			for _, pt := range []string{"reqmod", "rt", "resmod", "write", "gate", "late", "head", "rbody", "wbody"} {
+			for _, pt := range []string{"reqmod", "rt", "resmod", "write", "gate", "late", "head", "rbody", "wbody",
+				"tunnel", "cdial", "mpeek", "hjq", "hjs", "h2s"} {
 				if strings.Contains(op, pt) {
 					return true
 				}
@@ -122,6 +136,12 @@ type world struct {
 	serveDone chan struct{}
 	host      string  // authority of the request URLs
 	org       *origin // nil: stub round tripper
+	sbuf      int     // KiB of socket buffer on both ends of the client connections (0 = system default)
+	tln       net.Listener // echo target of the blind CONNECT tunnels
+	tmu       sync.Mutex
+	tacc      map[string]net.Conn // target-side connections of the tunnels, by the proxy's local address
+	tdial     map[int]string      // local address of the proxy's connection to the target, by connection index
+	mitm      bool
 }
 
 // cplan says where (if anywhere) the k-th connection is to be parked.
@@ -151,7 +171,18 @@ func (c *cplan) orelease() { c.ogonce.Do(func() { close(c.ogate) }) }
 
 // parksAt: does the proxy-side gate of this plan sit at the given point?
 func (c *cplan) parksAt(point string) bool {
-	return c.point == point || (c.point == "rbody" && point == "resmod")
+	switch c.point {
+	case "rbody", "cresmod", "hjs":
+		return point == "resmod"
+	case "creqmod", "hjq":
+		return point == "reqmod"
+	}
+	return c.point == point
+}
+
+// hijacks: the modifier at this point takes the connection over (Session.Hijack) before it parks.
+func (c *cplan) hijacks(point string) bool {
+	return (c.point == "hjq" && point == "reqmod") || (c.point == "hjs" && point == "resmod")
 }
 
 func waitCh(ch <-chan struct{}, d time.Duration) bool {
@@ -180,6 +211,19 @@ type sconn struct {
 	wseq      int    // responses started
 	wchunked  bool   // the current response is chunked: it ends with the last-chunk "0\r\n\r\n"
 	wtail     []byte // last bytes written of a chunked response
+	wdone     int32  // responses completely written
+	connectRq int32  // the request being served is a CONNECT (set by the request modifier)
+	raw       bool   // a tunnel is established (2xx to a CONNECT): writes are tunnel bytes / TLS records
+	rawParked bool
+}
+
+// CloseWrite lets the blind tunnel propagate the target's end-of-stream to the client (the proxy looks
+// for this method on the connection it was given).
+func (c *sconn) CloseWrite() error {
+	if cw, ok := c.Conn.(interface{ CloseWrite() error }); ok {
+		return cw.CloseWrite()
+	}
+	return nil
 }
 
 func (c *sconn) started() int {
@@ -247,7 +291,29 @@ func (c *sconn) Close() error {
 func (c *sconn) Write(p []byte) (int, error) {
 	c.wmu.Lock()
 	defer c.wmu.Unlock()
+	if c.raw {
+		// inside a MITM'd tunnel the records are opaque; the "slow client" point parks the first write after
+		// the response modifier of the parked exchange has returned, half-way through it
+		if c.plan != nil && c.plan.point == "write" && !c.rawParked && len(p) >= 2 {
+			select {
+			case <-c.plan.rmDone:
+				c.rawParked = true
+				h := len(p) / 2
+				n, err := c.Conn.Write(p[:h])
+				if err != nil {
+					return n, err
+				}
+				c.plan.arrive()
+				waitCh(c.plan.gate, 30*time.Second)
+				m, err := c.Conn.Write(p[h:])
+				return n + m, err
+			default:
+			}
+		}
+		return c.Conn.Write(p)
+	}
 	park := false
+	tunnelUp := false
 	bodyFrom := 0 // chunked: offset in p from which the bytes belong to the chunk stream (incl. the CRLF ending the head)
 	if !c.wchunked && c.wpending == 0 {
 		he := bytes.Index(p, []byte("\r\n\r\n"))
@@ -256,6 +322,9 @@ func (c *sconn) Write(p []byte) (int, error) {
 			return c.Conn.Write(p)
 		}
 		head := strings.ToLower(string(p[:he]))
+		if atomic.CompareAndSwapInt32(&c.connectRq, 1, 0) && strings.HasPrefix(head, "http/1.1 2") {
+			tunnelUp = true // everything after this response is tunnel traffic
+		}
 		cl := 0
 		mark := 0
 		for _, ln := range strings.Split(head, "\r\n") {
@@ -308,7 +377,11 @@ func (c *sconn) Write(p []byte) (int, error) {
 		c.wpending = 0
 	}
 	if err == nil && c.wpending == 0 {
+		atomic.AddInt32(&c.wdone, 1)
 		c.w.log.add("we:%d", c.k)
+		if tunnelUp {
+			c.raw = true
+		}
 	}
 	return written, err
 }
@@ -323,6 +396,7 @@ func (c *sconn) chunkedProgress(b []byte) {
 	if bytes.Equal(c.wtail, []byte("\r\n0\r\n\r\n")) {
 		c.wchunked = false
 		c.wtail = nil
+		atomic.AddInt32(&c.wdone, 1)
 		c.w.log.add("we:%d", c.k)
 	}
 }
@@ -341,6 +415,9 @@ func (l *wlistener) Accept() (net.Conn, error) {
 	}
 	w := l.w
 	w.mu.Lock()
+	if tc, ok := c.(*net.TCPConn); ok && w.sbuf > 0 {
+		tc.SetWriteBuffer(w.sbuf << 10) // a small send buffer: a client that does not read stalls the writer early
+	}
 	k := len(w.byIdx)
 	sc := &sconn{Conn: c, w: w, k: k, closed: make(chan struct{})}
 	if k < len(w.plans) {
@@ -378,8 +455,25 @@ func (w *world) at(point string, req *http.Request, start, end string, endArg fu
 		w.log.add("bad:-1:unknown-conn-in-%s", point)
 		return
 	}
+	if point == "reqmod" {
+		if req.Method == "CONNECT" {
+			atomic.StoreInt32(&sc.connectRq, 1)
+		} else {
+			atomic.StoreInt32(&sc.connectRq, 0)
+		}
+	}
 	w.log.add("%s:%d", start, sc.k)
 	if sc.plan != nil && sc.plan.parksAt(point) && sc.plan.parkSeq == i {
+		if sc.plan.hijacks(point) {
+			// the modifier takes the connection over; it is "the hijacker" until it returns
+			if _, _, err := martian.NewContext(req).Session().Hijack(); err != nil {
+				w.log.add("bad:%d:hijack-failed", sc.k)
+			}
+			sc.plan.arrive()
+			waitCh(sc.plan.gate, 30*time.Second)
+			w.log.add("hj:%d", sc.k)
+			return
+		}
 		sc.plan.arrive()
 		waitCh(sc.plan.gate, 30*time.Second)
 	}
@@ -551,7 +645,7 @@ func (o *origin) handle(c net.Conn) {
 			waitCh(pl.gate, 30*time.Second)
 		}
 		half := len(payload) / 2
-		c.SetWriteDeadline(time.Now().Add(30 * time.Second))
+		c.SetWriteDeadline(time.Now().Add(60 * time.Second))
 		if _, err := c.Write(append([]byte(head+"\r\n"), payload[:half]...)); err != nil {
 			return
 		}
@@ -563,7 +657,7 @@ func (o *origin) handle(c net.Conn) {
 			pl.oarrive()
 			waitCh(pl.ogate, 30*time.Second)
 		}
-		c.SetWriteDeadline(time.Now().Add(30 * time.Second))
+		c.SetWriteDeadline(time.Now().Add(60 * time.Second))
 		if _, err := c.Write(payload[half:]); err != nil {
 			return
 		}
@@ -574,11 +668,123 @@ func (o *origin) handle(c net.Conn) {
 }
 
 func newWorld(bodyLen int, plans []*cplan) (*world, error) {
-	return newWorldT(bodyLen, plans, false, false)
+	return newWorldT(bodyLen, plans, false, false, false)
 }
 
-// newWorldT: realTransport = keep the proxy's default transport and serve the requests from a raw origin.
-func newWorldT(bodyLen int, plans []*cplan, realTransport, chunked bool) (*world, error) {
+var (
+	mitmOnce sync.Once
+	mitmCfg  *mitm.Config
+	mitmErr  error
+	h2Origin *httptest.Server // one HTTP/2 TLS origin per process, reached through MITM'd tunnels to 127.0.0.1
+)
+
+// theMitm: one authority per process (RSA key generation is slow); the configuration is immutable.
+func theMitm() (*mitm.Config, error) {
+	mitmOnce.Do(func() {
+		ca, priv, err := mitm.NewAuthority("c07 verif CA", "c07", 24*time.Hour)
+		if err != nil {
+			mitmErr = err
+			return
+		}
+		mitmCfg, mitmErr = mitm.NewConfig(ca, priv)
+		if mitmErr != nil {
+			return
+		}
+		h2Origin = httptest.NewUnstartedServer(http.HandlerFunc(func(rw http.ResponseWriter, req *http.Request) {
+			rw.Write([]byte("h2 origin"))
+		}))
+		h2Origin.EnableHTTP2 = true
+		h2Origin.StartTLS()
+		pool := x509.NewCertPool()
+		pool.AddCert(h2Origin.Certificate())
+		// HTTP/2 is offered only inside tunnels to the loopback origin; the other MITM'd tunnels stay HTTP/1.1
+		mitmCfg.SetH2Config(&mh2.Config{RootCAs: pool, AllowedHostsFilter: func(h string) bool { return strings.HasPrefix(h, "127.0.0.1") }})
+	})
+	return mitmCfg, mitmErr
+}
+
+// tunnelIdx: "t<k>.c07.test:443" is the CONNECT target of connection k.
+func tunnelIdx(addr string) (int, bool) {
+	if !strings.HasPrefix(addr, "t") || !strings.HasSuffix(addr, ".c07.test:443") {
+		return 0, false
+	}
+	k, err := strconv.Atoi(addr[1 : len(addr)-len(".c07.test:443")])
+	return k, err == nil
+}
+
+// pdial is the proxy's dial function: CONNECT targets go to the harness echo target; events dls / dle:k:<ok>.
+func (w *world) pdial(network, addr string) (net.Conn, error) {
+	k, ok := tunnelIdx(addr)
+	if !ok {
+		return (&net.Dialer{Timeout: stepDeadline}).Dial(network, addr)
+	}
+	w.log.add("dls:%d", k)
+	var pl *cplan
+	if k < len(w.plans) {
+		pl = w.plans[k]
+	}
+	if pl != nil && pl.point == "cdial" {
+		pl.arrive()
+		waitCh(pl.gate, 30*time.Second)
+	}
+	if pl != nil && pl.point == "cdial" && pl.resClose {
+		w.log.add("dle:%d:0", k)
+		return nil, errors.New("c07: target refuses")
+	}
+	c, err := net.DialTimeout("tcp", w.tln.Addr().String(), stepDeadline)
+	if err != nil {
+		w.log.add("dle:%d:0", k)
+		return nil, err
+	}
+	w.tmu.Lock()
+	w.tdial[k] = c.LocalAddr().String()
+	w.tmu.Unlock()
+	w.log.add("dle:%d:1", k)
+	return c, nil
+}
+
+// closeTarget: the target of tunnel k ends the conversation.
+func (w *world) closeTarget(k int) bool {
+	return poll(stepDeadline, func() bool {
+		w.tmu.Lock()
+		defer w.tmu.Unlock()
+		if c := w.tacc[w.tdial[k]]; c != nil {
+			c.Close()
+			return true
+		}
+		return false
+	})
+}
+
+// target: echoes until end-of-stream, then closes.
+func (w *world) serveTarget() {
+	for {
+		c, err := w.tln.Accept()
+		if err != nil {
+			return
+		}
+		w.tmu.Lock()
+		w.tacc[c.RemoteAddr().String()] = c
+		w.tmu.Unlock()
+		go func() {
+			defer c.Close()
+			c.SetDeadline(time.Now().Add(60 * time.Second))
+			io.Copy(c, c)
+		}()
+	}
+}
+
+func (w *world) closeTargets() {
+	w.tmu.Lock()
+	defer w.tmu.Unlock()
+	for _, c := range w.tacc {
+		c.Close()
+	}
+}
+
+// newWorldT: realTransport = keep the proxy's default transport and serve the requests from a raw origin;
+// mitmOn = the proxy MITMs CONNECT tunnels.
+func newWorldT(bodyLen int, plans []*cplan, realTransport, chunked, mitmOn bool) (*world, error) {
 	mlog.SetLevel(mlog.Silent)
 	w := &world{log: &evlog{}, conns: map[string]*sconn{}, plans: plans, serveDone: make(chan struct{}), host: hostName}
 	w.body = make([]byte, bodyLen)
@@ -607,6 +813,26 @@ func newWorldT(bodyLen int, plans []*cplan, realTransport, chunked bool) (*world
 	}
 	w.p.SetRequestModifier(reqMod{w})
 	w.p.SetResponseModifier(resMod{w})
+	w.tacc = map[string]net.Conn{}
+	w.tdial = map[int]string{}
+	tl, err := net.Listen("tcp", "127.0.0.1:0")
+	if err != nil {
+		l.Close()
+		return nil, err
+	}
+	w.tln = tl
+	go w.serveTarget()
+	w.p.SetDial(w.pdial)
+	if mitmOn {
+		mc, err := theMitm()
+		if err != nil {
+			l.Close()
+			tl.Close()
+			return nil, err
+		}
+		w.p.SetMITM(mc)
+		w.mitm = true
+	}
 	go func() {
 		defer close(w.serveDone)
 		defer func() {
@@ -631,6 +857,197 @@ type client struct {
 	seq   int
 	resps int32
 	eof   chan struct{}
+	// a client that stops reading: the reader does not pick up response number holdSeq (beyond the first
+	// bytes) until hold is closed
+	hold    chan struct{}
+	holdSeq int
+	honce   sync.Once
+	// CONNECT
+	kmu     sync.Mutex
+	kinds   []bool      // per request sent on the plain connection: is it a CONNECT
+	cresps  int32       // responses to CONNECT received
+	cstatus int32       // status of the last one
+	tun     chan []byte // bytes received through the blind tunnel
+	secHost string      // MITM'd tunnel: authority of the requests sent inside it
+	aborted int32       // the client gave up on purpose: read errors are not the proxy's fault
+	closed  int32       // the client closed its end on purpose
+}
+
+func (cl *client) sent(connect bool) {
+	cl.kmu.Lock()
+	cl.kinds = append(cl.kinds, connect)
+	cl.kmu.Unlock()
+}
+
+func (cl *client) isConnect(n int) bool {
+	cl.kmu.Lock()
+	defer cl.kmu.Unlock()
+	return n < len(cl.kinds) && cl.kinds[n]
+}
+
+func (cl *client) connectBytes(target string) []byte {
+	return []byte("CONNECT " + target + " HTTP/1.1\r\nHost: " + target + "\r\nX-Conn: " + cl.addr + "\r\nX-Seq: " + strconv.Itoa(cl.seq) + "\r\n\r\n")
+}
+
+// sendConnect: a complete CONNECT request on the plain connection (event snd:k:c).
+func (cl *client) sendConnect(target string) error {
+	b := cl.connectBytes(target)
+	cl.w.log.add("snd:%s:c", cl.key())
+	cl.sent(true)
+	cl.seq++
+	cl.c.SetWriteDeadline(time.Now().Add(stepDeadline))
+	_, err := cl.c.Write(b)
+	return err
+}
+
+// mitmConnect: CONNECT, read the 200 and (handshake) start TLS inside the tunnel; afterwards cl.c is the
+// TLS connection and the reader goroutine parses the responses to the requests sent inside the tunnel.
+func (cl *client) mitmConnect(host string, handshake bool) error {
+	b := cl.connectBytes(host + ":443")
+	cl.w.log.add("snd:%s:c", cl.key())
+	cl.seq++
+	cl.c.SetDeadline(time.Now().Add(stepDeadline))
+	if _, err := cl.c.Write(b); err != nil {
+		return err
+	}
+	res, err := http.ReadResponse(bufio.NewReader(cl.c), &http.Request{Method: "CONNECT"})
+	if err != nil {
+		return err
+	}
+	if res.StatusCode != 200 {
+		return fmt.Errorf("CONNECT answered %d", res.StatusCode)
+	}
+	cl.w.log.add("cresp:%s", cl.key())
+	atomic.AddInt32(&cl.cresps, 1)
+	cl.secHost = host
+	if !handshake {
+		cl.c.SetDeadline(time.Time{})
+		return nil
+	}
+	cl.w.log.add("tls:%s", cl.key())
+	tc := tls.Client(cl.c, &tls.Config{InsecureSkipVerify: true, ServerName: host, NextProtos: []string{"http/1.1"}})
+	if err := tc.Handshake(); err != nil {
+		return err
+	}
+	tc.SetDeadline(time.Time{})
+	cl.c = tc
+	return nil
+}
+
+// h2Connect: CONNECT to the process-wide HTTP/2 origin through the MITM, TLS with ALPN h2, one complete
+// request/response through the relayed session (event h2:k once that has worked). The connection is then
+// owned by the HTTP/2 client; watch() reports its end as eof:k.
+func (cl *client) h2Connect() error {
+	host := h2Origin.Listener.Addr().String()
+	b := cl.connectBytes(host)
+	cl.w.log.add("snd:%s:c", cl.key())
+	cl.seq++
+	cl.c.SetDeadline(time.Now().Add(stepDeadline))
+	if _, err := cl.c.Write(b); err != nil {
+		return err
+	}
+	res, err := http.ReadResponse(bufio.NewReader(cl.c), &http.Request{Method: "CONNECT"})
+	if err != nil {
+		return err
+	}
+	if res.StatusCode != 200 {
+		return fmt.Errorf("CONNECT answered %d", res.StatusCode)
+	}
+	cl.w.log.add("cresp:%s", cl.key())
+	atomic.AddInt32(&cl.cresps, 1)
+	cl.w.log.add("tls:%s", cl.key())
+	tc := tls.Client(cl.c, &tls.Config{InsecureSkipVerify: true, NextProtos: []string{"h2"}})
+	if err := tc.Handshake(); err != nil {
+		return err
+	}
+	if tc.ConnectionState().NegotiatedProtocol != "h2" {
+		return fmt.Errorf("negotiated %q, not h2", tc.ConnectionState().NegotiatedProtocol)
+	}
+	tc.SetDeadline(time.Time{})
+	cl.c = tc
+	cc, err := (&http2.Transport{}).NewClientConn(tc)
+	if err != nil {
+		return err
+	}
+	ctx, cancel := context.WithTimeout(context.Background(), stepDeadline)
+	defer cancel()
+	rq, _ := http.NewRequestWithContext(ctx, "GET", "https://"+host+"/", nil)
+	rs, err := cc.RoundTrip(rq)
+	if err != nil {
+		return err
+	}
+	body, _ := io.ReadAll(rs.Body)
+	rs.Body.Close()
+	if string(body) != "h2 origin" {
+		return fmt.Errorf("unexpected body %q through the HTTP/2 session", body)
+	}
+	cl.w.log.add("h2:%s", cl.key())
+	go func() { // the session's end, as the client sees it
+		defer close(cl.eof)
+		for i := 0; i < 3000; i++ {
+			pctx, pc := context.WithTimeout(context.Background(), 2*time.Second)
+			err := cc.Ping(pctx)
+			pc()
+			if err != nil {
+				break
+			}
+			time.Sleep(10 * time.Millisecond)
+		}
+		cl.w.log.add("eof:%s", cl.key())
+	}()
+	return nil
+}
+
+// goneAway: the client closes its end on purpose (event ev = tcl: end of a tunnel; cx: abort of a response).
+func (cl *client) goneAway(ev string) {
+	atomic.StoreInt32(&cl.closed, 1)
+	cl.w.log.add("%s:%s", ev, cl.key())
+	cl.c.Close()
+}
+
+// echo: n bytes through the blind tunnel and back.
+func (cl *client) echo(n int) bool {
+	cl.c.SetWriteDeadline(time.Now().Add(stepDeadline))
+	if _, err := cl.c.Write(bytes.Repeat([]byte{'e'}, n)); err != nil {
+		return false
+	}
+	t := time.After(stepDeadline)
+	for got := 0; got < n; {
+		select {
+		case b, ok := <-cl.tun:
+			if !ok {
+				return false
+			}
+			got += len(b)
+		case <-t:
+			return false
+		}
+	}
+	return true
+}
+
+// tunnelLoop: the blind tunnel is up; everything that arrives is tunnel traffic.
+func (cl *client) tunnelLoop(br *bufio.Reader) {
+	defer close(cl.tun)
+	for {
+		cl.c.SetReadDeadline(time.Now().Add(40 * time.Second))
+		b := make([]byte, 4096)
+		n, err := br.Read(b)
+		if n > 0 {
+			select {
+			case cl.tun <- b[:n]:
+			default:
+			}
+		}
+		if err != nil {
+			if ne, ok := err.(net.Error); ok && ne.Timeout() && atomic.LoadInt32(&cl.closed) == 0 {
+				cl.w.log.add("bad:%s:client-read-timeout", cl.key())
+			}
+			cl.w.log.add("eof:%s", cl.key())
+			cl.c.Close() // the other side of the tunnel is done: so is the client
+			return
+		}
+	}
 }
 
 func (w *world) dial() (*client, error) {
@@ -638,7 +1055,10 @@ func (w *world) dial() (*client, error) {
 	if err != nil {
 		return nil, err
 	}
-	return &client{w: w, c: c, addr: c.LocalAddr().String(), k: -1, eof: make(chan struct{})}, nil
+	if tc, ok := c.(*net.TCPConn); ok && w.sbuf > 0 {
+		tc.SetReadBuffer(w.sbuf << 10)
+	}
+	return &client{w: w, c: c, addr: c.LocalAddr().String(), k: -1, eof: make(chan struct{}), holdSeq: -1, tun: make(chan []byte, 256)}, nil
 }
 
 // evKey is the connection index if known, else a placeholder resolved when the log is rendered.
@@ -649,21 +1069,33 @@ func (cl *client) key() string {
 	return "@" + cl.addr
 }
 
+func (cl *client) resume() {
+	cl.honce.Do(func() { close(cl.hold) })
+}
+
 func (cl *client) reader() {
 	defer close(cl.eof)
 	br := bufio.NewReader(cl.c)
-	for {
+	for n := 0; ; n++ {
 		cl.c.SetReadDeadline(time.Now().Add(40 * time.Second))
 		if _, err := br.Peek(1); err != nil { // closed between responses (EOF or reset): no partial response
-			if ne, ok := err.(net.Error); ok && ne.Timeout() {
+			if ne, ok := err.(net.Error); ok && ne.Timeout() && atomic.LoadInt32(&cl.closed) == 0 {
 				cl.w.log.add("bad:%s:client-read-timeout", cl.key())
 			}
 			cl.w.log.add("eof:%s", cl.key())
 			return
 		}
-		res, err := http.ReadResponse(br, nil)
+		if cl.hold != nil && int(atomic.LoadInt32(&cl.resps)) == cl.holdSeq {
+			waitCh(cl.hold, 40*time.Second) // busy elsewhere: the response stays in the socket buffers and beyond
+			cl.c.SetReadDeadline(time.Now().Add(40 * time.Second))
+		}
+		var rq *http.Request
+		if cl.isConnect(n) {
+			rq = &http.Request{Method: "CONNECT"}
+		}
+		res, err := http.ReadResponse(br, rq)
 		if err != nil {
-			if err != io.EOF && !strings.Contains(err.Error(), "reset") && !strings.Contains(err.Error(), "closed") {
+			if err != io.EOF && !strings.Contains(err.Error(), "reset") && !strings.Contains(err.Error(), "closed") && atomic.LoadInt32(&cl.closed) == 0 {
 				if err == io.ErrUnexpectedEOF {
 					cl.w.log.add("bad:%s:truncated-head", cl.key())
 				} else {
@@ -677,8 +1109,25 @@ func (cl *client) reader() {
 		if res.Close {
 			mark = 1
 		}
+		if rq != nil {
+			if res.StatusCode/100 != 2 { // a 2xx to CONNECT has no body: what follows is the tunnel
+				io.Copy(io.Discard, res.Body)
+			}
+			atomic.StoreInt32(&cl.cstatus, int32(res.StatusCode))
+			cl.w.log.add("cresp:%s", cl.key())
+			atomic.AddInt32(&cl.cresps, 1)
+			if res.StatusCode/100 == 2 {
+				cl.tunnelLoop(br)
+				return
+			}
+			continue
+		}
 		cl.w.log.add("head:%s:%d", cl.key(), mark)
 		b, err := io.ReadAll(res.Body)
+		if atomic.LoadInt32(&cl.closed) == 1 && (err != nil || len(b) != len(cl.w.body)) {
+			cl.w.log.add("eof:%s", cl.key()) // the client itself gave up on this response
+			return
+		}
 		if err != nil || res.StatusCode != 200 || !bytes.Equal(b, cl.w.body) {
 			cl.w.log.add("bad:%s:status-%d-body-%d-of-%d-not-the-origin-response", cl.key(), res.StatusCode, len(b), len(cl.w.body))
 			cl.w.log.add("eof:%s", cl.key())
@@ -704,6 +1153,9 @@ func sanitize(s string) string {
 
 func (cl *client) reqBytes(closeHdr bool) []byte {
 	s := "GET http://" + cl.w.host + "/ HTTP/1.1\r\nHost: " + cl.w.host + "\r\nX-Conn: " + cl.addr + "\r\nX-Seq: " + strconv.Itoa(cl.seq) + "\r\n"
+	if cl.secHost != "" { // inside a MITM'd tunnel: origin form
+		s = "GET / HTTP/1.1\r\nHost: " + cl.secHost + "\r\nX-Conn: " + cl.addr + "\r\nX-Seq: " + strconv.Itoa(cl.seq) + "\r\n"
+	}
 	if closeHdr {
 		s += "Connection: close\r\n"
 	}
@@ -717,6 +1169,7 @@ func (cl *client) sendFull(closeHdr bool) error {
 		rc = 1
 	}
 	cl.w.log.add("snd:%s:f:%d", cl.key(), rc)
+	cl.sent(false)
 	cl.seq++
 	cl.c.SetWriteDeadline(time.Now().Add(stepDeadline))
 	_, err := cl.c.Write(b)
@@ -751,6 +1204,35 @@ type scenario struct {
 	real  bool // t=1: real default transport + raw origin
 	chunk bool // te=1: the origin answers chunked
 	delay int  // d: µs between "shutdown observable" and the first release
+	stall int  // st: ms during which the clients of the parked exchanges do not read (after the releases)
+	sbuf  int  // sb: KiB of socket buffer on both ends of the client connections (0 = system default)
+	mitm  bool // m=1: the proxy MITMs CONNECT; the connections parked at the six points are MITM'd tunnels
+	abort bool // ab=1: after the stall the clients of the stalled connections close instead of reading
+	nclose int // cl: number of concurrent callers of Close() (default 1)
+}
+
+// inTunnel: connection k does CONNECT + TLS first and is driven to its point inside the MITM'd tunnel.
+func (sc *scenario) inTunnel(k int) bool {
+	if !sc.mitm {
+		return false
+	}
+	switch sc.pts[k] {
+	case "idle", "head", "reqmod", "rt", "resmod", "write":
+		return true
+	}
+	return false
+}
+
+// stalls: is connection k one whose client stops reading while shutdown drains it?
+func (sc *scenario) stalls(k int) bool {
+	if sc.stall <= 0 {
+		return false
+	}
+	switch sc.pts[k] {
+	case "reqmod", "rt", "resmod", "write", "rbody", "wbody":
+		return true
+	}
+	return false
 }
 
 var points = []string{"idle", "head", "reqmod", "rt", "resmod", "write"}
@@ -806,19 +1288,42 @@ func parseScn(op string) (*scenario, bool) {
 			sc.order = v
 		case "b":
 			n, err := strconv.Atoi(kv[1])
-			if err != nil || n < 0 || n > 1<<20 {
+			if err != nil || n < 0 || n > 1<<26 {
 				return nil, false
 			}
 			sc.body = n
-		case "t", "te":
+		case "st":
+			n, err := strconv.Atoi(kv[1])
+			if err != nil || n < 0 || n > 20000 {
+				return nil, false
+			}
+			sc.stall = n
+		case "sb":
+			n, err := strconv.Atoi(kv[1])
+			if err != nil || n < 0 || n > 4096 {
+				return nil, false
+			}
+			sc.sbuf = n
+		case "t", "te", "m", "ab":
 			if kv[1] != "0" && kv[1] != "1" {
 				return nil, false
 			}
-			if kv[0] == "t" {
+			switch kv[0] {
+			case "t":
 				sc.real = kv[1] == "1"
-			} else {
+			case "te":
 				sc.chunk = kv[1] == "1"
+			case "m":
+				sc.mitm = kv[1] == "1"
+			case "ab":
+				sc.abort = kv[1] == "1"
 			}
+		case "cl":
+			n, err := strconv.Atoi(kv[1])
+			if err != nil || n < 1 || n > 4 {
+				return nil, false
+			}
+			sc.nclose = n
 		case "d":
 			n, err := strconv.Atoi(kv[1])
 			if err != nil || n < 0 || n > 20000 {
@@ -831,6 +1336,15 @@ func parseScn(op string) (*scenario, bool) {
 	}
 	if sc.chunk && !sc.real {
 		return nil, false
+	}
+	if sc.mitm && sc.real { // requests inside a MITM'd tunnel are https: the stub round tripper answers them
+		return nil, false
+	}
+	if sc.abort && sc.stall <= 0 {
+		return nil, false
+	}
+	if sc.nclose == 0 {
+		sc.nclose = 1
 	}
 	n := len(sc.pts)
 	if n < 1 || n > 4 {
@@ -870,6 +1384,24 @@ func parseScn(op string) (*scenario, bool) {
 			if !sc.real || sc.body < 1 || (p == "rbody" && sc.body > 100000) {
 				return nil, false
 			}
+			// the origin parks after it has written half of the body: impossible while the client of a
+			// large response does not read
+			if sc.stall > 0 && sc.body > 100000 {
+				return nil, false
+			}
+		case "tunnel", "cdial", "creqmod", "cresmod": // blind CONNECT tunnel (no MITM)
+			if sc.mitm {
+				return nil, false
+			}
+		case "mpeek": // MITM'd tunnel whose client has not sent its first byte
+			if !sc.mitm {
+				return nil, false
+			}
+		case "h2s": // an HTTP/2 session relayed inside a MITM'd tunnel
+			if !sc.mitm || sc.x[i] != 0 {
+				return nil, false
+			}
+		case "hjq", "hjs": // a modifier that hijacks the connection
 		case "gate", "late":
 			if i != n-1 { // Serve is stuck behind a gate conn; after shutdown it accepts at most one more
 				return nil, false
@@ -900,15 +1432,24 @@ func runScenario(sc *scenario) (trace []string, v verdict, counted map[int]bool)
 	plans := make([]*cplan, n)
 	for k := 0; k < n; k++ {
 		plans[k] = newPlan(sc.pts[k], sc.x[k], sc.s[k])
+		if sc.inTunnel(k) {
+			plans[k].parkSeq++ // the CONNECT that opened the tunnel was request 0
+		}
 	}
-	w, err := newWorldT(sc.body, plans, sc.real, sc.chunk)
+	w, err := newWorldT(sc.body, plans, sc.real, sc.chunk, sc.mitm)
 	if err != nil {
 		v.set("c07:harness", "listen: %v", err)
 		return nil, v, nil
 	}
+	w.sbuf = sc.sbuf
 	counted = map[int]bool{}
 	clients := make([]*client, n)
 	defer func() {
+		for _, cl := range clients {
+			if cl != nil && cl.hold != nil {
+				cl.resume()
+			}
+		}
 		for _, pl := range plans {
 			pl.release()
 			pl.orelease()
@@ -916,9 +1457,12 @@ func runScenario(sc *scenario) (trace []string, v verdict, counted map[int]bool)
 		w.ln.Close()
 		for _, cl := range clients {
 			if cl != nil {
+				atomic.StoreInt32(&cl.closed, 1)
 				cl.c.Close()
 			}
 		}
+		w.tln.Close()
+		w.closeTargets()
 		waitCh(w.serveDone, stepDeadline)
 		if w.org != nil {
 			w.org.close()
@@ -948,6 +1492,23 @@ func runScenario(sc *scenario) (trace []string, v verdict, counted map[int]bool)
 			return false
 		}
 		cl.k = k
+		if sc.stalls(k) {
+			cl.hold = make(chan struct{})
+			cl.holdSeq = sc.x[k]
+		}
+		if sc.inTunnel(k) {
+			if err := cl.mitmConnect(fmt.Sprintf("m%d.c07.test", k), true); err != nil {
+				v.set("c07:no-progress:mitm", "connection %d: no MITM'd tunnel: %v", k, err)
+				return false
+			}
+		}
+		if sc.pts[k] == "h2s" {
+			if err := cl.h2Connect(); err != nil {
+				v.set("c07:no-progress:h2s", "connection %d: no HTTP/2 session through the MITM: %v", k, err)
+				return false
+			}
+			return true // the HTTP/2 client owns the connection
+		}
 		go cl.reader()
 		return true
 	}
@@ -1008,6 +1569,32 @@ func runScenario(sc *scenario) (trace []string, v verdict, counted map[int]bool)
 				v.set("c07:no-progress:head", "connection %d: handler did not read the partial head", k)
 				return w.log.snapshot(), v, counted
 			}
+		case "h2s": // the HTTP/2 session is up (connect)
+		case "mpeek": // MITM: the 200 of the CONNECT arrives; the client stays silent
+			if err := cl.sendConnect(fmt.Sprintf("m%d.c07.test:443", k)); err != nil {
+				v.set("c07:harness", "send: %v", err)
+				return w.log.snapshot(), v, counted
+			}
+			if !poll(stepDeadline, func() bool { return atomic.LoadInt32(&cl.cresps) >= 1 }) || atomic.LoadInt32(&cl.cstatus) != 200 {
+				v.set("c07:no-progress:mpeek", "connection %d: CONNECT was not answered 200", k)
+				return w.log.snapshot(), v, counted
+			}
+		case "tunnel", "cdial", "creqmod", "cresmod":
+			if err := cl.sendConnect(fmt.Sprintf("t%d.c07.test:443", k)); err != nil {
+				v.set("c07:harness", "send: %v", err)
+				return w.log.snapshot(), v, counted
+			}
+			ok := true
+			if pt == "tunnel" { // the tunnel is up once bytes have gone through it and back
+				ok = poll(stepDeadline, func() bool { return atomic.LoadInt32(&cl.cresps) >= 1 }) &&
+					atomic.LoadInt32(&cl.cstatus) == 200 && cl.echo(16)
+			} else {
+				ok = waitCh(plans[k].parked, stepDeadline)
+			}
+			if !ok {
+				v.set("c07:no-progress:"+pt, "connection %d: CONNECT did not reach %s", k, pt)
+				return w.log.snapshot(), v, counted
+			}
 		default:
 			if err := cl.sendFull(sc.q[k]); err != nil {
 				v.set("c07:harness", "send: %v", err)
@@ -1032,17 +1619,24 @@ func runScenario(sc *scenario) (trace []string, v verdict, counted map[int]bool)
 
 	// 2. shutdown
 	ret := make(chan struct{})
-	w.log.add("call")
-	go func() {
-		defer func() {
-			if x := recover(); x != nil {
-				w.log.add("bad:-1:close-panic")
-			}
+	var retOnce sync.Once
+	for i := 0; i < sc.nclose; i++ {
+		w.log.add("call")
+		go func() {
+			defer func() {
+				if x := recover(); x != nil {
+					if e, ok := x.(error); ok && strings.Contains(e.Error(), "close of closed channel") {
+						w.log.add("panic") // a further caller of Close(): outside the statement, compared with the model
+					} else {
+						w.log.add("bad:-1:close-panic")
+					}
+				}
+			}()
+			w.p.Close()
+			w.log.add("ret")
+			retOnce.Do(func() { close(ret) })
 		}()
-		w.p.Close()
-		w.log.add("ret")
-		close(ret)
-	}()
+	}
 	if !poll(stepDeadline, w.p.Closing) {
 		v.set("c07:no-progress:closing", "Closing() not true %v after Close() was called", stepDeadline)
 		return w.log.snapshot(), v, counted
@@ -1065,6 +1659,7 @@ func runScenario(sc *scenario) (trace []string, v verdict, counted map[int]bool)
 	}
 
 	// 3. releases, in the given order
+	var stalled []int
 	for _, k := range sc.order {
 		switch sc.pts[k] {
 		case "idle", "late":
@@ -1080,6 +1675,39 @@ func runScenario(sc *scenario) (trace []string, v verdict, counted map[int]bool)
 			}
 			w.log.add("open:%d", k)
 			plans[k].release()
+		case "tunnel", "mpeek":
+			// an open tunnel ends when its peers are done: the target (q=1) or the client leaves
+			if sc.pts[k] == "tunnel" && sc.q[k] {
+				w.log.add("tcl:%d", k)
+				w.closeTarget(k)
+			} else {
+				clients[k].goneAway("tcl")
+			}
+			if !waitCh(w.byIdx[k].closed, stepDeadline) {
+				v.set("c07:conn-not-closed", "connection %d (%s) was not closed within %v of its tunnel's peer leaving", k, sc.pts[k], stepDeadline)
+			}
+		case "h2s":
+			// the session was handed the closing channel: it ends by itself, no peer has to do anything
+			if !waitCh(w.byIdx[k].closed, stepDeadline) {
+				w.log.add("h2alive:%d", k) // not in the model's alphabet: the model says the session stops
+				clients[k].goneAway("tcl")
+				if !waitCh(w.byIdx[k].closed, stepDeadline) {
+					v.set("c07:conn-not-closed", "connection %d (HTTP/2 session) was not closed within %v of its client leaving", k, stepDeadline)
+				}
+			}
+		case "cdial", "creqmod", "cresmod":
+			w.log.add("open:%d", k)
+			plans[k].release()
+			cl := clients[k]
+			if poll(stepDeadline, func() bool { return atomic.LoadInt32(&cl.cresps) >= 1 }) && atomic.LoadInt32(&cl.cstatus) == 200 {
+				// the tunnel opens although shutdown has begun; the client uses it once and leaves
+				core.Count("tunnel-opened-during-shutdown")
+				cl.echo(16)
+				cl.goneAway("tcl")
+			}
+			if !waitCh(w.byIdx[k].closed, stepDeadline) {
+				v.set("c07:conn-not-closed", "connection %d (CONNECT parked in %s) was not closed within %v of its release during shutdown", k, sc.pts[k], stepDeadline)
+			}
 		default:
 			w.log.add("open:%d", k)
 			plans[k].release()
@@ -1093,8 +1721,40 @@ func runScenario(sc *scenario) (trace []string, v verdict, counted map[int]bool)
 				w.log.add("open:%d", k)
 				plans[k].orelease()
 			}
+			if sc.stalls(k) {
+				stalled = append(stalled, k) // its client is not reading: it is drained after the stall
+				continue
+			}
 			if !waitCh(w.byIdx[k].closed, stepDeadline) {
 				v.set("c07:conn-not-closed", "connection %d (parked in %s) was not closed within %v of its release during shutdown", k, sc.pts[k], stepDeadline)
+			}
+		}
+	}
+
+	// 3b. the clients of the stalled connections have not been reading for sc.stall ms (longer than any
+	// deadline a proxy could plausibly put on a draining connection); now they read everything
+	if len(stalled) > 0 {
+		time.Sleep(time.Duration(sc.stall) * time.Millisecond)
+		for _, k := range stalled {
+			// was the writer really blocked (response larger than what the socket buffers absorb)?
+			if sc.inTunnel(k) {
+				core.Count("stall:inside-mitm-tunnel-writes-unobserved")
+			} else if int(atomic.LoadInt32(&w.byIdx[k].wdone)) <= sc.x[k] {
+				core.Count("stall:writer-blocked")
+			} else {
+				core.Count("stall:absorbed-by-socket-buffers")
+			}
+		}
+		w.log.add("resume")
+		for _, k := range stalled {
+			if sc.abort {
+				clients[k].goneAway("cx") // the client gives up on the response instead of reading it
+			}
+			clients[k].resume()
+		}
+		for _, k := range stalled {
+			if !waitCh(w.byIdx[k].closed, 3*stepDeadline) {
+				v.set("c07:conn-not-closed", "connection %d (parked in %s, client stalled %d ms) was not closed within %v of its client reading again", k, sc.pts[k], sc.stall, 3*stepDeadline)
 			}
 		}
 	}
@@ -1154,7 +1814,9 @@ func judge(trace []string) (v verdict, early bool) {
 		case "obs":
 			posObs = i
 		case "call":
-			posCall = i
+			if posCall < 0 {
+				posCall = i
+			}
 		}
 	}
 	type cs struct {
@@ -1163,6 +1825,9 @@ func judge(trace []string) (v verdict, early bool) {
 		marks              []string
 		ws                 int
 		bad                string
+		kinds              []bool // per complete request sent: CONNECT?
+		cresp, hj          int    // responses to CONNECT seen by the client; exchanges a modifier hijacked
+		cx, tls            bool   // the client gave up during a response write; the client runs TLS inside a MITM'd tunnel
 	}
 	conns := map[int]*cs{}
 	get := func(k int) *cs {
@@ -1214,6 +1879,22 @@ func judge(trace []string) (v verdict, early bool) {
 		case "resp":
 			c.resp = append(c.resp, i)
 			c.marks = append(c.marks, e.arg)
+		case "snd":
+			if e.arg == "c" {
+				c.kinds = append(c.kinds, true)
+			} else if strings.HasPrefix(e.arg, "f") {
+				c.kinds = append(c.kinds, false)
+			}
+		case "cresp":
+			c.cresp++
+		case "h2":
+			c.tls = true
+		case "hj":
+			c.hj++
+		case "cx":
+			c.cx = true
+		case "tls":
+			c.tls = true
 		}
 	}
 	var ks []int
@@ -1230,8 +1911,11 @@ func judge(trace []string) (v verdict, early bool) {
 		if c.bad != "" {
 			v.set("c07:incomplete-response", "connection %d: %s (request modifier started %d times, %d complete responses)", k, c.bad, len(c.rqs), len(c.resp))
 		}
-		if len(c.resp) != len(c.rqs) {
-			v.set("c07:incomplete-response", "connection %d: request modifier started %d times but the client received %d complete responses", k, len(c.rqs), len(c.resp))
+		// exchanges that are not owed a response by the proxy: a modifier hijacked the connection; the
+		// client itself gave up while the response was being written (at most the one in flight)
+		got := len(c.resp) + c.cresp + c.hj
+		if got != len(c.rqs) && !(c.cx && got+1 == len(c.rqs)) {
+			v.set("c07:incomplete-response", "connection %d: request modifier started %d times but the client received %d complete responses (%d of them to CONNECT; %d exchanges hijacked)", k, len(c.rqs), len(c.resp)+c.cresp, c.cresp, c.hj)
 		}
 		nwe := 0
 		for _, p := range c.we {
@@ -1239,14 +1923,22 @@ func judge(trace []string) (v verdict, early bool) {
 				nwe++
 			}
 		}
-		if nwe != len(c.rqs) {
+		// (inside a MITM'd tunnel the server-side writes are TLS records: only the client side is observed)
+		if !c.tls && nwe+c.hj != len(c.rqs) && !(c.cx && nwe+c.hj+1 == len(c.rqs)) {
 			v.set("c07:incomplete-response", "connection %d: closed with %d responses completely written for %d started exchanges", k, nwe, len(c.rqs))
 		}
-		// marked connection-close whenever shutdown was observable at the close decision
+		// marked connection-close whenever shutdown was observable at the close decision (the i-th return
+		// of the response modifier belongs to the i-th request; responses to CONNECT open a tunnel and are
+		// not subject to the marking rule)
+		mi := 0
 		for i, p := range c.rme {
-			if posObs >= 0 && p > posObs && i < len(c.marks) && c.marks[i] != "1" {
+			if i < len(c.kinds) && c.kinds[i] {
+				continue
+			}
+			if posObs >= 0 && p > posObs && mi < len(c.marks) && c.marks[mi] != "1" {
 				v.set("c07:unmarked-response", "connection %d exchange %d: response modifier returned after shutdown was observable, response not marked Connection: close", k, i)
 			}
+			mi++
 		}
 		// no request modifier starts after Close has returned
 		for _, p := range c.rqs {
@@ -1278,7 +1970,7 @@ func render(trace []string) string {
 	for _, t := range trace {
 		e := parseEv(t)
 		switch e.kind {
-		case "open", "head", "bad": // not part of the model's alphabet (bad: oracle only)
+		case "open", "head", "bad", "resume": // not part of the model's alphabet (bad: oracle only)
 			continue
 		}
 		if strings.Contains(t, "@") { // client event of a connection that was never accepted
@@ -1351,9 +2043,22 @@ func (e *ex) do(op string) core.Result {
 		if early {
 			core.Count("close-returned-early")
 		}
+		if sc.mitm {
+			core.Count("mitm")
+		}
+		if sc.abort {
+			core.Count("client-abort")
+		}
+		if sc.stall > 0 && !sc.abort {
+			core.Count("client-stall")
+		}
+		core.Count(fmt.Sprintf("close-callers:%d", sc.nclose))
 		detail := v.fail
 		if detail != "" {
 			detail += " | trace: " + strings.Join(trace, " ")
+		}
+		if os.Getenv("C07_TRACE") != "" {
+			fmt.Fprintln(os.Stderr, "C07_TRACE", op, "|", strings.Join(trace, " "))
 		}
 		return core.Result{Impl: implLine(trace, early), Fail: detail, Sig: v.sig, ModelOp: render(trace)}
 	case strings.HasPrefix(op, "race "):
@@ -1670,6 +2375,180 @@ func realGrid(emit func(ops []string), full bool) {
 	}
 }
 
+// extended point sets of round 3
+var (
+	blindPoints = []string{"idle", "head", "reqmod", "rt", "resmod", "write", "tunnel", "cdial", "creqmod", "cresmod", "hjq", "hjs"}
+	mitmPoints  = []string{"idle", "head", "reqmod", "rt", "resmod", "write", "mpeek", "hjq", "hjs", "h2s"}
+)
+
+func extOp(pts []string, x, q, s, o []int, body int, mitm bool, ncl int) string {
+	op := scnOp(pts, x, q, s, o, body)
+	if mitm {
+		op += " m=1"
+	}
+	if ncl > 1 {
+		op += fmt.Sprintf(" cl=%d", ncl)
+	}
+	return op
+}
+
+// randExt: 1..3 connections over the extended point sets (tunnels, MITM, hijack), 1..3 callers of Close.
+func randExt(r *core.Rand) string {
+	n := r.Range(1, 3)
+	mitm := r.Chance(2, 5)
+	pool := blindPoints
+	if mitm {
+		pool = mitmPoints
+	}
+	pts := make([]string, n)
+	x, q, s := make([]int, n), make([]int, n), make([]int, n)
+	for i := range pts {
+		if r.Chance(1, 2) {
+			pts[i] = pool[6+r.Intn(len(pool)-6)] // the new points
+		} else {
+			pts[i] = pool[r.Intn(len(pool))]
+		}
+		if r.Chance(1, 3) && pts[i] != "h2s" {
+			x[i] = r.Range(1, 2)
+		}
+		if r.Chance(1, 5) {
+			q[i] = 1
+		}
+		if r.Chance(1, 5) {
+			s[i] = 1
+		}
+	}
+	if r.Chance(1, 6) {
+		pts[n-1] = r.Pick("gate", "late")
+		x[n-1], q[n-1], s[n-1] = 0, 0, 0
+	}
+	ps := perms(n)
+	body := []int{0, 64, 64, 5000, 70000}[r.Intn(5)]
+	ncl := []int{1, 1, 1, 2, 3}[r.Intn(5)]
+	return extOp(pts, x, q, s, ps[r.Intn(len(ps))], body, mitm, ncl)
+}
+
+// abortScn: the clients of the parked exchanges give up (close) while a response far larger than the
+// socket buffers is being written to them during the drain phase.
+func abortScn(r *core.Rand) string {
+	n := r.Range(1, 2)
+	pool := []string{"reqmod", "rt", "resmod", "write"}
+	pts := make([]string, n)
+	x := make([]int, n)
+	for i := range pts {
+		pts[i] = pool[r.Intn(len(pool))]
+		if r.Chance(1, 3) {
+			x[i] = 1
+		}
+	}
+	ps := perms(n)
+	op := scnOp(pts, x, make([]int, n), make([]int, n), ps[r.Intn(len(ps))], []int{2 << 20, 4 << 20}[r.Intn(2)])
+	if r.Chance(1, 3) {
+		op += fmt.Sprintf(" t=1 te=%d d=0", r.Intn(2))
+	}
+	return op + fmt.Sprintf(" st=%d sb=%d ab=1", r.Range(150, 400), []int{64, 128}[r.Intn(2)])
+}
+
+// extGrid: every new point alone (with and without a warm-up exchange, both flag values where they mean
+// something), every point inside a MITM'd tunnel; full = also all pairs over the extended sets × both orders.
+func extGrid(emit func(ops []string), full bool) {
+	one := func(p string, x, q, s int, mitm bool, ncl int) {
+		emit([]string{extOp([]string{p}, []int{x}, []int{q}, []int{s}, []int{0}, 64, mitm, ncl)})
+	}
+	for x := 0; x <= 1; x++ {
+		one("tunnel", x, 0, 0, false, 1) // the client leaves
+		one("tunnel", x, 1, 0, false, 1) // the target leaves
+		one("cdial", x, 0, 0, false, 1)  // the tunnel opens during shutdown
+		one("cdial", x, 0, 1, false, 1)  // the dial fails: 502, the connection goes on
+		one("creqmod", x, 0, 0, false, 1)
+		one("cresmod", x, 0, 0, false, 1)
+		one("hjq", x, 0, 0, false, 1)
+		one("hjs", x, 0, 0, false, 1)
+		for _, p := range mitmPoints {
+			if p == "h2s" && x > 0 {
+				continue
+			}
+			one(p, x, 0, 0, true, 1)
+		}
+	}
+	for _, p := range []string{"idle", "reqmod", "write", "tunnel", "hjq"} {
+		one(p, 0, 0, 0, false, 2)
+		one(p, 1, 0, 0, false, 3)
+	}
+	one("reqmod", 0, 0, 0, true, 2)
+	if !full {
+		return
+	}
+	for _, set := range [][]string{blindPoints, mitmPoints} {
+		mitm := len(set) == len(mitmPoints)
+		for _, a := range set {
+			for _, b := range set {
+				isNew := func(p string) bool {
+					for _, o := range points {
+						if o == p {
+							return false
+						}
+					}
+					return true
+				}
+				if !mitm && !isNew(a) && !isNew(b) {
+					continue // pairs of the six old points are in the exhaustive part
+				}
+				for _, o := range perms(2) {
+					emit([]string{extOp([]string{a, b}, []int{0, 0}, []int{0, 0}, []int{0, 0}, o, 64, mitm, 1)})
+				}
+			}
+		}
+	}
+}
+
+// stallScn: slow clients during the drain phase. 1..3 connections parked inside an exchange (so that the
+// shutdown falls before, at or after the close decision), a response much larger than the socket buffers,
+// and clients that do not read for `stall` ms after the exchanges were released — longer than any deadline
+// a proxy could plausibly put on a connection it is draining. All stalled connections of one scenario
+// stall concurrently, so a scenario costs one stall.
+func stallScn(r *core.Rand, stall int, real bool, defaultBufs bool) string {
+	n := r.Range(1, 3)
+	if defaultBufs {
+		n = r.Range(1, 2) // 48 MiB each
+	}
+	pool := []string{"reqmod", "rt", "resmod", "write"}
+	if real {
+		// (not wbody: with a client that does not read, the origin cannot get half of a multi-MiB body out)
+		pool = []string{"rt", "reqmod", "resmod", "write"}
+	}
+	pts := make([]string, n)
+	x, q, s := make([]int, n), make([]int, n), make([]int, n)
+	// shutdown before the close decision on at least one connection
+	for i := range pts {
+		pts[i] = pool[r.Intn(len(pool))]
+		if r.Chance(1, 3) {
+			x[i] = 1
+		}
+		if r.Chance(1, 6) {
+			q[i] = 1
+		}
+		if r.Chance(1, 6) {
+			s[i] = 1
+		}
+	}
+	pts[r.Intn(n)] = r.Pick("reqmod", "rt", "resmod")
+	ps := perms(n)
+	body := []int{2 << 20, 4 << 20, 8 << 20}[r.Intn(3)]
+	sb := []int{64, 128, 256}[r.Intn(3)]
+	if defaultBufs {
+		body, sb = 48<<20, 0
+		for i := range x {
+			x[i] = 0
+		}
+	}
+	op := scnOp(pts, x, q, s, ps[r.Intn(len(ps))], body)
+	if real {
+		op += fmt.Sprintf(" t=1 te=%d d=%d", r.Intn(2), []int{0, 500, 2000}[r.Intn(3)])
+	}
+	return op + fmt.Sprintf(" st=%d sb=%d", stall, sb)
+}
+
 func (P) Gen(r *core.Rand, tier string, emit func(ops []string)) {
 	zeros := func(n int) []int { return make([]int, n) }
 	if tier == "thorough" {
@@ -1715,6 +2594,20 @@ func (P) Gen(r *core.Rand, tier string, emit func(ops []string)) {
 		for i := 0; i < 200; i++ {
 			emit([]string{fmt.Sprintf("race c=%d d=%d", r.Pick2(r.Range(1, 6), r.Range(7, 32)), r.Pick2(0, r.Range(0, 3000)))})
 		}
+		// slow clients: 8 scenarios, stalls of 6.5 .. 12 s (an op must end within core.OpTimeout = 30 s also on a
+		// loaded machine), stub and real transport, small and default socket buffers
+		for i, st := range []int{6500, 7000, 8000, 9000, 10000, 12000} {
+			emit([]string{stallScn(r, st, i%2 == 1, false)})
+		}
+		emit([]string{stallScn(r, 7000, false, true)})
+		emit([]string{stallScn(r, 7000, true, true)})
+		extGrid(emit, true)
+		for i := 0; i < 2500; i++ {
+			emit([]string{randExt(r)})
+		}
+		for i := 0; i < 60; i++ {
+			emit([]string{abortScn(r)})
+		}
 		return
 	}
 	// quick: exhaustive for 1 and 2 connections (6 + 36·2 scenarios), then a seeded sample
@@ -1743,4 +2636,13 @@ func (P) Gen(r *core.Rand, tier string, emit func(ops []string)) {
 	for i := 0; i < 30; i++ {
 		emit([]string{fmt.Sprintf("race c=%d d=%d", r.Pick2(r.Range(1, 6), r.Range(7, 24)), r.Pick2(0, r.Range(0, 2000)))})
 	}
+	extGrid(emit, false)
+	for i := 0; i < 160; i++ {
+		emit([]string{randExt(r)})
+	}
+	for i := 0; i < 6; i++ {
+		emit([]string{abortScn(r)})
+	}
+	// one slow-client scenario (≈ 7–9 s): clients stalled during the drain phase, bodies ≫ socket buffers
+	emit([]string{stallScn(r, r.Range(6500, 8500), r.Chance(1, 2), false)})
 }
